@@ -110,3 +110,19 @@ Definition random_v2 (draws : list Z) (keys : list Z) (count : Z) : list Z :=
 (* the bounds with which the local source is asked: len, len-1, ... *)
 Fixpoint bounds (len : Z) (k : nat) : list Z :=
   match k with O => [] | S k' => len :: bounds (len - 1) k' end.
+
+(* ---- GetTotalDPoSV2VoteRights: a float64 running sum over two nested Go maps
+   (stake address -> refer key -> vote).  Each addend is float64(Fixed64(..)),
+   an integer; [round] is float64 rounding of the exact sum of two integers
+   (binary64 represents every integer of magnitude <= 2^53 exactly). *)
+Section Rights.
+  Variable round : Z -> Z.
+  Definition fadd (a x : Z) : Z := round (a + x).
+  Definition inner_total (l : list Z) : Z := fold_left fadd l 0.
+  Definition vote_rights_from (a : Z) (stakes : list (list Z)) : Z :=
+    fold_left (fun acc l => fadd acc (inner_total l)) stakes a.
+  Definition vote_rights (stakes : list (list Z)) : Z := vote_rights_from 0 stakes.
+End Rights.
+
+Definition zsum (l : list Z) : Z := fold_right Z.add 0 l.
+Definition abs_sum (l : list Z) : Z := fold_right (fun x a => Z.abs x + a) 0 l.
